@@ -216,14 +216,14 @@ class C06Monitor:
                        {"before": self.before, "after": after})
                 self.stop = True
                 return
-            seen_index = False
+            pos = {id(m): i for i, m in enumerate(self.update_order)}
             for m in self.update_order:
-                is_idx = hasattr(m, "get_components")
-                if seen_index and not is_idx:
-                    self.v("index-last", "index-market-stepped-before-a-component-market",
-                           {"order": [x.name for x in self.update_order]})
-                    break
-                seen_index = seen_index or is_idx
+                if hasattr(m, "get_components"):
+                    late = [c.name for c in m.get_components() if pos.get(id(c), -1) > pos[id(m)]]
+                    if late:
+                        self.v("index-last", "index-market-stepped-before-a-component-market",
+                               {"order": [x.name for x in self.update_order], "index": m.name, "components_after": late})
+                        break
             if sorted(id(m) for m in self.update_order) != sorted(id(m) for m in self.sim.markets):
                 self.v("advance", "not-every-market-stepped-exactly-once-in-a-clock-update",
                        {"order": [x.name for x in self.update_order]})
